@@ -48,6 +48,35 @@ def judgeFault (fields : List String) : String :=
       if code1 ≠ 200 ∧ code2 = 200 ∧ n2 = size ∧ xs2 = "hitForPass".toList ∧ contacts = 2 then s!"ok short-{size} 1{trip}"
       else s!"DIFF fault short model=(err,200,{size},hitForPass,2) impl=({code1},{n1},{code2},{n2},{str xs2},{contacts}){trip}"
     | _, _, _, _, _, _, _ => "BADLINE fault short"
+  | ["nobody", kind, _timeout, "=>", c1, xs1, c2, xs2, contacts] =>
+    match unhex kind, c1.toInt?, unhex xs1, c2.toInt?, unhex xs2, contacts.toNat? with
+    | some kind, some c1, some xs1, some c2, some xs2, some contacts =>
+      -- a cacheable answer without a body is a cacheable answer: the second request is a hit, the origin saw one
+      let trip := (if contacts ≠ 1 then " TRIP upstream_contacts_ne_one" else "")
+        ++ (if c1 ≠ c2 then " TRIP status_or_header_changed" else "")
+      if contacts = 1 ∧ c1 = c2 ∧ xs1 = "fetching".toList ∧ xs2 = "hit".toList then s!"ok nobody-{str kind} 1{trip}"
+      else s!"DIFF fault nobody {str kind} model=(fetching,hit,1) impl=({c1},{str xs1},{c2},{str xs2},{contacts}){trip}"
+    | _, _, _, _, _, _ => "BADLINE fault nobody"
+  | ["badenc", enc, cut, "=>", c1, ms1, c2, ms2, c3, ms3] =>
+    match unhex enc, unhex cut, c1.toInt?, ms1.toNat?, c2.toInt?, ms2.toNat?, c3.toInt?, ms3.toNat? with
+    | some enc, some cut, some c1, some ms1, some c2, some ms2, some c3, some ms3 =>
+      -- every request ends (with whatever answer): no request is left waiting, the key is not stuck
+      let stuck := c1 = -2 ∨ c2 = -2 ∨ c3 = -2 ∨ ms1 ≥ 5000 ∨ ms2 ≥ 5000 ∨ ms3 ≥ 5000
+      s!"ok badenc-{str enc}-{str cut} 1" ++ (if stuck then " TRIP blocked" else "")
+    | _, _, _, _, _, _, _, _ => "BADLINE fault badenc"
+  | ["cond", kind, _timeout, "=>", c1, xs1, c2, xs2, c3, n3, xs3, contacts] =>
+    match unhex kind, c1.toNat?, unhex xs1, c2.toNat?, unhex xs2, c3.toNat?, n3.toNat?, unhex xs3, contacts.toNat? with
+    | some kind, some c1, some xs1, some c2, some xs2, some c3, some n3, some xs3, some contacts =>
+      -- the client's validators match the resource: 304 on the cold fetch (from the full response that was fetched
+      -- and stored without them) and 304 on the hit; the plain client afterwards gets the full stored response; the
+      -- origin was asked once
+      let trip := (if c1 ≠ 304 ∨ c2 ≠ 304 then " TRIP no_304" else "")
+        ++ (if c3 ≠ 200 ∨ n3 ≠ 25 then " TRIP partial_replayed" else "")
+        ++ (if contacts ≠ 1 then " TRIP upstream_contacts_ne_one" else "")
+      if c1 = 304 ∧ c2 = 304 ∧ c3 = 200 ∧ n3 = 25 ∧ contacts = 1 ∧ xs1 = "fetching".toList ∧ xs2 = "hit".toList ∧ xs3 = "hit".toList
+      then s!"ok cond-{str kind} 1{trip}"
+      else s!"DIFF fault cond {str kind} model=(304,fetching,304,hit,200,25,hit,1) impl=({c1},{str xs1},{c2},{str xs2},{c3},{n3},{str xs3},{contacts}){trip}"
+    | _, _, _, _, _, _, _, _, _ => "BADLINE fault cond"
   | _ => "BADLINE fault fields"
 
 end Pike.Driver
